@@ -3,6 +3,7 @@ import common as cm
 import gen
 import anno
 import vcommon
+import samgen
 from vcommon import IMPORTS, CHECK_FN
 
 RULE = ("random genomes with 1-3 coding features (forward/reverse, single/joined segments, overlapping, named and - in "
@@ -13,7 +14,8 @@ RULE = ("random genomes with 1-3 coding features (forward/reverse, single/joined
         "per position). Oracles written from the statement check every per-sequence "
         "row of the implementation: mentioned positions = disjoint positions (with --append-snps), nuc: records name the "
         "symbols, aa: records = the codons whose query translation is unambiguous and differs. The Coq model of the caller "
-        "is compared byte for byte. Non-trivial: the case has a reverse-strand or joined feature, or an insertion. "
+        "is compared byte for byte; the same pairwise relations are also given to `sam variants` as SAM records (rows must be "
+        "equal). Non-trivial: the case has a reverse-strand or joined feature, or an insertion. "
         "Distinct by case content.")
 ASSUMPTIONS = ["regions (positions, strand, translation) are taken from the implementation's own parsers (C14 decides them)",
                "annotation consistent: each feature's translation has one letter per codon (generator guarantees it)"]
@@ -59,7 +61,8 @@ def generate(ctx):
                                         {"kind": "%s:%s" % (suffix, mode), "nontrivial": nontriv}, append_snps=append,
                                         threads=rng.choice([1, 2, 4]),
                                         info={"ref_row": ref_row, "queries": [(nm, r) for nm, r in recs if nm != "REF"],
-                                              "features": gbfeats if suffix == "gb" else feats, "genbank": suffix == "gb"}))
+                                              "features": gbfeats if suffix == "gb" else feats, "genbank": suffix == "gb",
+                                              "genome": genome, "annob": annob, "suffix": suffix, "mode": mode}))
     return cs
 
 
@@ -72,4 +75,17 @@ def post_go(ctx, cases, obs):
         if probs:
             c["sample"]["oracle_problems"] = probs[:5]
             bad.append(c)
+    # the statement is about `variants` and `sam variants`: the SAM form of the same pairwise relations, one worker
+    def get_pairs(c):
+        if c["info"]["mode"] == "anno" or any("?" in q for _, q in c["info"]["queries"]):
+            return None
+        return [(nm, c["info"]["ref_row"], q) for nm, q in c["info"]["queries"]]
+    _state["sam_form_runs"] = vcommon.sam_form_stage(ctx, cm, gen, samgen, anno, cases, obs, bad, get_pairs)
     return bad
+
+
+_state = {}
+
+
+def coverage_extra(ctx):
+    return {"sam_form_runs": _state.get("sam_form_runs", 0)}
